@@ -139,6 +139,19 @@ def make_interface(prop):
                 continue
             if not (r2["violations"] and r2["violations"][0]["sig"] == sig):
                 culprits.append(row)
+        if not culprits:
+            # no single entry explains it: several entries may steer the same decision (e.g. a cached diagonalization and the
+            # root computed from it) - knock out everything the failing object holds at the failing step
+            grp = [row for row in rows if row["step"] == step]
+            if grp:
+                s = dict(mscen, knockout={"step": step, "group": [{"obj": g_["obj"], "path": g_["path"], "name": g_["name"]} for g_ in grp]})
+                try:
+                    r2 = replay(s)
+                    if not (r2["violations"] and r2["violations"][0]["sig"] == sig):
+                        culprits = [g_ for g_ in grp if g_["err"] is not None] or grp
+                except Exception:
+                    pass
+
         def classify(errs):
             """none | exact | approximate (inexact, but exact on its own column space: truncated / deflated Lanczos) | wrong"""
             errs = [e for e in errs if e is not None]
@@ -160,7 +173,7 @@ def make_interface(prop):
                 "parent_root_accuracy": parent_acc,
                 "parent_root_errors": [x["err"] for x in pr],
                 "approximate_factor_involved": involved,
-                "culprits_written_by_queries_inexact_on_fresh_copy_too": "yes" if (culprits and all(c.get("direct_inexact") for c in culprits)) else "no",
+                "culprits_written_by_queries_inexact_on_fresh_copy_too": "yes" if (culprits and any(c.get("direct_inexact") for c in culprits)) else "no",
                 "culprit_names": sorted({c["name"].split("(")[0] for c in culprits}),
                 "culprit_writers": sorted({c["writer"] for c in culprits}),
                 "culprit_entry_errors_full_and_projected": [c["err"] for c in culprits],
@@ -200,9 +213,7 @@ def make_interface(prop):
             total["stats"][k] = total["stats"].get(k, 0) + v
         for key in ("fp", "nt", "c13", "c13nt"):
             total[key].update(agg[key])
-        for s in agg["samples"]:
-            if len(total["samples"]) < 3:
-                total["samples"].append(s)
+        total["samples"] = sorted(total["samples"] + agg["samples"], key=lambda s_: s_["run_seed"])[:3]
 
     def evidence(total, tier):
         st = total["stats"]
